@@ -178,7 +178,7 @@ def _run_unit(args):
         res = unit.fn(Results(uid)) if unit.kind == "prove" else unit.fn(tier, seed)
         d = res.to_dict() if isinstance(res, Results) else res
         d.setdefault("unit", uid)
-        d["status"] = "ok"
+        d.setdefault("status", "ok")
     except Unsupported as e:
         d = dict(unit=uid, status="unsupported", reason=str(e), obligations=[])
     except Exception as e:
@@ -206,7 +206,7 @@ def run_units(modname, units, tier, seed, jobs=None):
 def native_replay(prop, oid, cex):
     """cex = dict(replay=<function name in /verif/replay/native.py>, args=..., ...).  Executes the real
     code under /venv/bin/python.  returns (reproduced: bool|None, detail, path)"""
-    d = os.path.join(VERIF, "replays", prop)
+    d = os.path.join(os.environ.get("PYVC_REPLAY_DIR") or os.path.join(VERIF, "replays"), prop)
     os.makedirs(d, exist_ok=True)
     path = os.path.join(d, re.sub(r"[^A-Za-z0-9_.#-]", "_", oid) + ".json")
     rec = dict(property=prop, obligation=oid, counterexample=cex)
@@ -411,8 +411,9 @@ def main(argv=None):
         wall_s=round(time.time() - t0, 2),
         violations=len(violations),
     )
-    os.makedirs(os.path.join(VERIF, "evidence"), exist_ok=True)
-    with open(os.path.join(VERIF, "evidence", f"{prop}.json"), "w") as f:
+    evdir = os.environ.get("PYVC_EVIDENCE_DIR") or os.path.join(VERIF, "evidence")  # (self-test runs write elsewhere)
+    os.makedirs(evdir, exist_ok=True)
+    with open(os.path.join(evdir, f"{prop}.json"), "w") as f:
         json.dump(ev, f, indent=1, default=str)
     print(f"{prop} tier={tier}: units={len(units)} obligations={n_obl} discharged={n_dis} bounded_units={len(bounded)} "
           f"violations={len(violations)} known={len(knowns)} undecided={len(undecided)} wall={ev['wall_s']}s exit={exit_code}")
